@@ -6,7 +6,7 @@ use std::collections::{HashMap, HashSet};
 use std::panic::{AssertUnwindSafe, catch_unwind};
 
 use gc_arena::{
-    Arena, Finalization, Gc, Lock, Mutation, RefLock, Rootable,
+    Arena, DynamicRoot, DynamicRootSet, Finalization, Gc, Lock, Mutation, RefLock, Rootable,
     arena::CollectionPhase,
     barrier::{field, unlock},
     lock::OnceLock,
@@ -18,6 +18,20 @@ use crate::ev;
 use crate::heap::*;
 
 pub type MyArena = Arena<Rootable![Root<'_>]>;
+pub type NodeRootable = Rootable![RefLock<Node<'_>>];
+
+/// A DynamicRoot handle held by the harness, outside every arena.
+pub struct HandleRec {
+    pub h: DynamicRoot<NodeRootable>,
+    pub arena: u32,
+    pub set: u32,
+    pub obj: u32,
+}
+
+thread_local! {
+    /// every handle of the running behaviour, by handle number (handles outlive arenas)
+    pub static HANDLES: std::cell::RefCell<std::collections::BTreeMap<u32, HandleRec>> = const { std::cell::RefCell::new(std::collections::BTreeMap::new()) };
+}
 
 pub const BIG: f64 = 1_099_511_627_776.0; // 2^40
 pub const SLEEP_LONG: usize = 1 << 30;
@@ -78,6 +92,7 @@ pub struct St {
     pub sh_weak: HashMap<u32, Vec<u32>>,
     pub root_s: Vec<u32>,
     pub root_w: Vec<u32>,
+    pub sets: Vec<u32>, // serials of the DynamicRootSets held by the root, in order
     pub diverged: bool,
     pub quiet_survey: bool,
     pub fail_next: bool, // the running try_map_root callback returns Err
@@ -130,6 +145,7 @@ impl St {
             sh_weak: HashMap::new(),
             root_s: Vec::new(),
             root_w: Vec::new(),
+            sets: Vec::new(),
             diverged: false,
             quiet_survey: false,
             fail_next: false,
@@ -211,6 +227,47 @@ impl St {
         p
     }
 
+    // ------------------------------------------------------------ dynamic roots (C14)
+    /// `DynamicRootSet::new`, stored in the root.  The set's GC object is the SECOND allocation
+    /// the constructor makes (the first is its `Rc<RefCell<Slots>>`).
+    pub fn new_set<'gc>(&mut self, mc: &Mutation<'gc>, root: &mut Root<'gc>, model: &str) {
+        let serial = self.next_serial;
+        self.next_serial += 1;
+        ALLOC.arm_skip(serial, 1);
+        let set = DynamicRootSet::new(mc);
+        let armed_left = ALLOC.disarm();
+        let blk = ALLOC.block_by_tag(serial);
+        let (size, align) = blk.map(|b| (b.size as i64, b.align as i64)).unwrap_or((-1, -1));
+        ev!(
+            "{{\"ev\":\"alloc\",\"a\":{},\"o\":{},\"k\":\"D\",\"dtor\":false,\"nt\":true,\"size\":{},\"align\":{},\"off\":16,\"tracked\":{}}}",
+            self.id, serial, size, align, blk.is_some() && !armed_left
+        );
+        self.info.insert(serial, Info { serial, kind: Kind::N, addr: blk.map(|b| b.user + 16).unwrap_or(0), model: model.to_string() });
+        self.by_model.insert(model.to_string(), serial);
+        root.sets.push(set);
+        self.sets.push(serial);
+        ev!("{{\"ev\":\"store\",\"a\":{},\"p\":0,\"c\":{},\"path\":\"mutate_root\",\"effective\":true}}", self.id, serial);
+    }
+
+    pub fn remove_set<'gc>(&mut self, root: &mut Root<'gc>, model: &str) -> bool {
+        let Some(serial) = self.serial_of(model) else { return false };
+        let Some(i) = self.sets.iter().position(|x| *x == serial) else { return false };
+        root.sets.remove(i);
+        self.sets.remove(i);
+        ev!("{{\"ev\":\"remove\",\"a\":{},\"p\":0,\"c\":{},\"path\":\"mutate_root\"}}", self.id, serial);
+        true
+    }
+
+    pub fn stash<'gc>(&mut self, mc: &Mutation<'gc>, root: &Root<'gc>, set_model: &str, cs: u32, c: Ptr<'gc>, hid: u32) -> bool {
+        let Some(set_serial) = self.serial_of(set_model) else { return false };
+        let Some(i) = self.sets.iter().position(|x| *x == set_serial) else { return false };
+        let Ptr::N(g) = c else { return false };
+        let h = root.sets[i].stash::<NodeRootable>(mc, g);
+        HANDLES.with(|hs| hs.borrow_mut().insert(hid, HandleRec { h, arena: self.id, set: set_serial, obj: cs }));
+        ev!("{{\"ev\":\"stash\",\"a\":{},\"set\":{},\"o\":{},\"h\":{}}}", self.id, set_serial, cs, hid);
+        true
+    }
+
     // ------------------------------------------------------------ lock-step traversal
     pub fn kids_of<'gc>(p: Ptr<'gc>) -> (Vec<Ptr<'gc>>, Vec<WPtr<'gc>>) {
         match p {
@@ -272,6 +329,30 @@ impl St {
         }
         for p in root.strong.iter().rev() {
             stack.push(*p);
+        }
+        // dynamic root sets held by the root: present every handle of the behaviour to every set
+        for (i, set) in root.sets.iter().enumerate() {
+            let Some(&set_serial) = self.sets.get(i) else { continue };
+            let set_ok = ALLOC.block_by_tag(set_serial).map(|b| !b.released).unwrap_or(false);
+            if !set_ok {
+                ev!("{{\"ev\":\"deref\",\"a\":{},\"o\":{},\"ok\":false,\"why\":\"released\"}}", self.id, set_serial);
+                continue;
+            }
+            HANDLES.with(|hs| {
+                for (hid, rec) in hs.borrow().iter() {
+                    let contains = set.contains(&rec.h);
+                    let tf = set.try_fetch(&rec.h);
+                    let fetched = tf.as_ref().ok().and_then(|g| tag_of_addr(Gc::as_ptr(*g) as usize)).map(|t| t.0 as i64).unwrap_or(-1);
+                    let fp = catch_unwind(AssertUnwindSafe(|| set.fetch(&rec.h)));
+                    ev!(
+                        "{{\"ev\":\"fetch\",\"a\":{},\"set\":{},\"h\":{},\"contains\":{},\"ok\":{},\"o\":{},\"fetch_panics\":{}}}",
+                        self.id, set_serial, hid, contains, tf.is_ok(), fetched, fp.is_err()
+                    );
+                    if let Ok(g) = tf {
+                        stack.push(Ptr::N(g));
+                    }
+                }
+            });
         }
         let mut weak_q: Vec<(i64, WPtr<'gc>)> = root.weak.iter().map(|w| (0i64, *w)).collect();
         loop {
@@ -1017,6 +1098,41 @@ impl World {
             );
         }
     }
+}
+
+/// Handle operations happen outside every callback and also after the arena is gone.
+pub fn clone_handle(hid: u32, hid2: u32) -> bool {
+    HANDLES.with(|hs| {
+        let mut hs = hs.borrow_mut();
+        let Some(rec) = hs.get(&hid) else { return false };
+        let r = catch_unwind(AssertUnwindSafe(|| rec.h.clone()));
+        let (arena, set, obj) = (rec.arena, rec.set, rec.obj);
+        match r {
+            Ok(h) => {
+                hs.insert(hid2, HandleRec { h, arena, set, obj });
+                ev!("{{\"ev\":\"clone_handle\",\"a\":{},\"h\":{},\"h2\":{},\"panicked\":false}}", arena, hid, hid2);
+                true
+            }
+            Err(_) => {
+                ev!("{{\"ev\":\"clone_handle\",\"a\":{},\"h\":{},\"h2\":{},\"panicked\":true}}", arena, hid, hid2);
+                false
+            }
+        }
+    })
+}
+
+pub fn drop_handle(hid: u32) -> bool {
+    HANDLES.with(|hs| {
+        let Some(rec) = hs.borrow_mut().remove(&hid) else { return false };
+        let arena = rec.arena;
+        let r = catch_unwind(AssertUnwindSafe(move || drop(rec)));
+        ev!("{{\"ev\":\"drop_handle\",\"a\":{},\"h\":{},\"panicked\":{}}}", arena, hid, r.is_err());
+        r.is_ok()
+    })
+}
+
+pub fn clear_handles() {
+    HANDLES.with(|hs| hs.borrow_mut().clear());
 }
 
 pub enum FinOp {
